@@ -18,7 +18,7 @@ import (
 
 func TestMain(m *testing.M) { harness.Main(m) }
 
-const rule = "C19: the chains of C01 (internal/chains: reads, writes, upserts, soft deletes, raw SQL; records without nested association values) are run twice from two identically prepared SQLite databases behind the recording driver: once dry (Session{DryRun:true}, Config{DryRun:true} or db.ToSQL; with and without PrepareStmt and SkipDefaultTransaction; including batched creates, Save, FirstOrInit/FirstOrCreate, updates under Session{SkipHooks} and models with integer auto-time columns), once for real; NowFunc is fixed. non-trivial = a write finisher or at least 2 bound values; distinct = dry mode + canonical rendering of chain and values"
+const rule = "C19: the chains of C01 (internal/chains: reads, writes, upserts, soft deletes, raw SQL; records without nested association values) are run twice from two identically prepared SQLite databases behind the recording driver: once dry (Session{DryRun:true}, Config{DryRun:true} or db.ToSQL; with and without PrepareStmt and SkipDefaultTransaction, from the root handle or from a reusable handle db.Where(p).Session(&Session{}) that already carries a condition; including batched creates, Save, FirstOrInit/FirstOrCreate, updates under Session{SkipHooks} and models with integer auto-time columns), once for real; NowFunc is fixed. non-trivial = a write finisher or at least 2 bound values; distinct = dry mode + canonical rendering of chain and values"
 
 func fixedNow() time.Time { return testdb.FixedNow }
 
@@ -66,13 +66,17 @@ func logOf(evs []recdrv.Event) string {
 	return s
 }
 
-func check(rt *rapid.T, c *chains.Chain, mode string, prepare, skipTx bool) {
+func check(rt *rapid.T, c *chains.Chain, p *chains.Cond, mode string, prepare, skipTx bool) {
 	desc := mode
 	if prepare {
 		desc += "+prepare"
 	}
 	if skipTx {
 		desc += "+skiptx"
+	}
+	if p != nil {
+		// the operation starts from a reusable handle that already carries a condition
+		desc += " h=db.Where(" + p.U.String() + ").Session()"
 	}
 	desc += " " + c.String()
 	evid.Journal(desc)
@@ -97,7 +101,13 @@ func check(rt *rapid.T, c *chains.Chain, mode string, prepare, skipTx bool) {
 	}); err != nil {
 		rt.Fatalf("harness: %v", err)
 	}
-	plan := c.Plan(chains.Mode{LiteralLimit: true, Now: fixedNow()})
+	plan := c.WithPrefix(p).Plan(chains.Mode{LiteralLimit: true, Now: fixedNow()})
+	handle := func(db *gorm.DB) *gorm.DB {
+		if p == nil {
+			return db
+		}
+		return chains.ApplyPrefix(db, p).Session(&gorm.Session{})
+	}
 
 	// ---- dry run on A
 	a.Rec.Reset()
@@ -107,12 +117,16 @@ func check(rt *rapid.T, c *chains.Chain, mode string, prepare, skipTx bool) {
 	)
 	switch mode {
 	case "session":
-		dryTx = c.Apply(a.Session(&gorm.Session{DryRun: true, SkipDefaultTransaction: skipTx}))
+		dryTx = c.ApplyFrom(handle(a.DB).Session(&gorm.Session{DryRun: true, SkipDefaultTransaction: skipTx}), a.Session(&gorm.Session{DryRun: true}))
 	case "config":
-		dryTx = c.Apply(a.DB)
+		dryTx = c.ApplyFrom(handle(a.DB), a.DB)
 	default:
-		toSQL = a.ToSQL(func(tx *gorm.DB) *gorm.DB {
-			dryTx = c.Apply(tx)
+		toSQL = handle(a.DB).ToSQL(func(tx *gorm.DB) *gorm.DB {
+			root := tx
+			if p != nil {
+				root = a.DB // nested pieces (sub-queries, groups) start from a clean handle
+			}
+			dryTx = c.ApplyFrom(tx, root)
 			return dryTx
 		})
 	}
@@ -133,6 +147,9 @@ func check(rt *rapid.T, c *chains.Chain, mode string, prepare, skipTx bool) {
 	if skipTx {
 		classes = append(classes, "skip-default-transaction")
 	}
+	if p != nil {
+		classes = append(classes, "stateful-handle")
+	}
 	nVars := 0
 	smp := sample{Mode: mode, Chain: c.String()}
 	for i, st := range dry {
@@ -146,7 +163,7 @@ func check(rt *rapid.T, c *chains.Chain, mode string, prepare, skipTx bool) {
 
 	// ---- real run on B
 	b.Rec.Reset()
-	realTx := c.Apply(b.DB)
+	realTx := c.ApplyFrom(handle(b.DB), b.DB)
 	realLog := driverCalls(b.Rec.Events())
 	stmts := b.Rec.Statements()
 
@@ -244,6 +261,10 @@ func TestC19(t *testing.T) {
 		mode := rapid.SampledFrom([]string{"session", "config", "tosql"}).Draw(rt, "mode")
 		prepare := rapid.IntRange(0, 4).Draw(rt, "prepare") == 4
 		skipTx := mode != "tosql" && rapid.Bool().Draw(rt, "skiptx")
-		check(rt, c, mode, prepare, skipTx)
+		var p *chains.Cond
+		if rapid.Bool().Draw(rt, "stateful") {
+			p = chains.GenPrefix(rt, cfg, c)
+		}
+		check(rt, c, p, mode, prepare, skipTx)
 	})
 }
